@@ -32,6 +32,17 @@ class RunTimeout(BaseException):
     pass
 
 
+def _import_bycycle():
+    import bycycle  # noqa: F401
+    import bycycle.objs  # noqa: F401
+    import bycycle.group  # noqa: F401
+    import bycycle.features  # noqa: F401
+    import bycycle.burst  # noqa: F401
+    import bycycle.plts  # noqa: F401
+    import bycycle.cyclepoints  # noqa: F401
+    import bycycle.utils  # noqa: F401
+
+
 def import_sut():
     """Import bycycle from $VERIF_REPO's working tree and make sure that is what we got."""
     warnings.simplefilter('ignore')
@@ -39,6 +50,17 @@ def import_sut():
         sys.path.insert(0, REPO)
     import matplotlib
     matplotlib.use('Agg')
+    import matplotlib.pyplot  # noqa: F401  (third-party imports first: only bycycle's own
+    import numpy  # noqa: F401               module-level locks become simulator-aware)
+    import pandas  # noqa: F401
+    import scipy.signal  # noqa: F401
+    import neurodsp.filt  # noqa: F401
+    import neurodsp.burst  # noqa: F401
+    import neurodsp.timefrequency  # noqa: F401
+    import neurodsp.plts  # noqa: F401
+    from . import seams
+    with seams.sim_locks():
+        _import_bycycle()
     import bycycle
     import bycycle.objs
     import bycycle.group
